@@ -295,6 +295,7 @@ func c20Sinus(p *Prog, r *Report) {
 			}
 		}
 	}
+	c20Phase(p, r)
 	// the two evaluation sites
 	tagNum := cellP("GlobalVarsMain.TAG.Index").Add(PInt(1))
 	for _, key := range []string{"hermes.Init", "hermes.HermesSession.Run"} {
@@ -343,6 +344,39 @@ func c20Sinus(p *Prog, r *Report) {
 			r.Ob("sinusoid:"+strings.TrimPrefix(key, "hermes."), "-", false, "no evaluation of the sinusoidal level in "+key)
 		}
 	}
+}
+
+// c20Phase: "with the configured phase shift": the phase the sinusoid uses is the configured value for
+// every configuration, including 0; the default lives in the default configuration, not in a value test.
+func c20Phase(p *Prog, r *Report) {
+	ws := p.Fields().WriteSites(FieldRef{"GlobalVarsMain", "GWPhase"})
+	cw := p.Fields().WriteSites(FieldRef{"Config", "GroundWaterPhase"})
+	x := walked(p, "hermes.readConfig")
+	n, ok := 0, true
+	pos := "-"
+	det := ""
+	if x != nil {
+		for _, e := range x.Events {
+			if e.Kind != "assign" || e.Root != "GlobalVarsMain.GWPhase" {
+				continue
+			}
+			n++
+			pos = p.Pos(e.Pos)
+			v := stripVersions(e.Val)
+			plain := false
+			if t := v.single(); t != nil && len(t.M) == 1 && t.M[0].E == 1 && t.C.Cmp(ratInt(1)) == 0 && t.M[0].A.Kind == "cell" && strings.HasSuffix(t.M[0].A.Key, "GroundWaterPhase") {
+				plain = true
+			}
+			if !plain || len(e.Guards) != 0 {
+				ok = false
+				det += fmt.Sprintf(" phase = %s under [%s];", clip(v.String(), 80), clip(guardKeys(e.Guards), 80))
+			}
+		}
+	}
+	if n != 1 || len(ws) != 1 || len(cw) != 0 {
+		ok = false
+	}
+	r.Ob("phase:configured", pos, ok, fmt.Sprintf("the phase is stored %d time(s) in readConfig (%d write site(s) program-wide, %d direct store(s) into the configuration field): must be the single unconditional copy of the configured GroundWaterPhase (a value-dependent fallback replaces a configured phase of 0; the default belongs to the default configuration)%s", n, len(ws), len(cw), det))
 }
 
 // c20SeriesId: the level can only follow "the supplied series" if the reader
